@@ -117,3 +117,66 @@ theorem C07_sep_buffered_no_false_reject (sep : Bytes) (cap : Nat) (ke : Bool) (
   BRU.spec_frame sep cap ke hsep p rest hfirst
 
 end EasyNet
+
+-- ==== BEGIN raw JSON framer ====
+namespace EasyNet
+
+/-- **C07, raw JSON framer: bound.**  After every read — for every byte stream and every chunking, complete documents or
+    not — the copying consumer retains at most `limit` bytes (so at most `limit` + one read while a read is being
+    processed); and the error is raised at the first read boundary at which the accumulated bytes of an incomplete document
+    (leading whitespace included) exceed `limit`: the generator then ends with `LimitOverrunError` and an empty remainder. -/
+theorem C07_jraw_bound (limit : Nat) :
+    (∀ chunks : List Bytes,
+      (Consumer.held (·.doc) (Consumer.run JRaw.init (JRaw.feed limit) Consumer.new chunks).1).length ≤ limit) ∧
+    (∀ (s : JRaw.State) (b c : Bytes) (st : JRaw.SSt), JRaw.Inv limit s b →
+      JRaw.sscan .lead 0 (b ++ c) = .opened st → limit < (b ++ c).length → JRaw.feed limit s c = .fail []) := by
+  refine ⟨JRaw.run_held_le limit, ?_⟩
+  intro s b c st hinv hopen hlen
+  have h := (JRaw.feed_spec limit s b c hinv).1
+  unfold JRaw.spec at h
+  rw [hopen] at h
+  simp only [hlen, if_true] at h
+  cases hf : JRaw.feed limit s c with
+  | need s' => rw [hf] at h; cases h
+  | done d r => rw [hf] at h; cases h
+  | fail r => rw [hf] at h; simp only [Res.erase] at h; injection h with h; rw [h]
+
+/-- non-vacuity of the second part: a string that never closes, limit 4, five bytes received -/
+example : JRaw.Inv 4 JRaw.init [] ∧ JRaw.sscan .lead 0 ([] ++ [34, 97, 97, 97, 97]) = .opened (.encl 34 true 0 0 false) := by
+  exact ⟨JRaw.inv_init 4, by decide +kernel⟩
+
+/-- **C07, raw JSON framer: no false rejection, exact threshold.**  A stream of well-delimited documents each at most
+    `limit` bytes long (plain values: the value without its terminator) followed by an incomplete tail within the limit never
+    yields a size error, under any chunking; and a document that the scanner closes on its last byte is rejected, wherever
+    it ends up in a buffer, as soon as it is longer than `limit` (`|document| ≤ limit` is exact). -/
+theorem C07_jraw_no_false_reject (limit : Nat) :
+    (∀ (docs : List JRaw.Doc) (tail : Bytes) (chunks : List Bytes), (∀ d ∈ docs, d.ok limit) →
+      (JRaw.TailOk limit tail ∨ tail = []) → chunks.flatten = (docs.map JRaw.Doc.bytes).flatten ++ tail →
+      NoLimit (Consumer.run JRaw.init (JRaw.feed limit) Consumer.new chunks).2) ∧
+    (∀ (f x : Bytes), JRaw.sscan .lead 0 f = .closed f.length → limit < f.length →
+      ∃ r, JRaw.spec limit (f ++ x) = .fail r) := by
+  constructor
+  · intro docs tail chunks hok htail hcut
+    have ht : JRaw.IsTail limit tail := by
+      rcases htail with h | h
+      · exact h.isTail
+      · subst h; exact JRaw.isTail_nil limit
+    rw [(JRaw.run_docs limit docs hok tail ht chunks hcut).1]
+    intro it hit
+    simp only [List.mem_map] at hit
+    obtain ⟨d, _, rfl⟩ := hit
+    simp
+  · intro f x hscan hlen
+    have happ := JRaw.sscan_append f x .lead 0
+    rw [hscan] at happ
+    simp only at happ
+    unfold JRaw.spec
+    rw [happ]
+    exact (JRaw.splitS_fail_iff _ _ _).mpr hlen
+
+/-- non-vacuity: a 6-byte array at limit 6 is accepted, at limit 5 it is a document the second part rejects -/
+example : (JRaw.Doc.encl [91, 49, 44, 32, 50, 93]).ok 6 ∧ JRaw.sscan .lead 0 [91, 49, 44, 32, 50, 93] = .closed 6 := by
+  decide +kernel
+
+end EasyNet
+-- ==== END raw JSON framer ====
